@@ -142,7 +142,9 @@ REGISTRY["C12"] = {
                    "game (so the first request after the sub-process appears only after the last inner answer, exactly once; one ProcessLandMarkTrace per "
                    "activation; the enclosing instance completes) and the two engine runs must request the same logical tasks at every step and end with the "
                    "same variables and completion status. TestC12MultiStart: sub-processes with 1..3 inner start events whose branches hold 0..2 tasks or are consumed at the start "
-                   "event itself (false condition), optionally inside a parallel branch, under perturbation at start.flow / subprocess.activate, in lock-step with the token game."),
+                   "event itself (false condition), optionally inside a parallel branch, under perturbation at start.flow / subprocess.activate, in lock-step with the token game. "
+                   "Every request, at process level and inside sub-processes alike, must be made in a context that descends from the one given to StartAll (the harness starts every "
+                   "instance with a context that differs from the construction context by a value)."),
     "level_note": LOCKSTEP_TRUST + " Blocks that contain an early end event are not wrapped (an end event inside a sub-process ends only the inner token, so the wrapped program is not equivalent by BPMN semantics).",
     "technique": "rapid property test: metamorphic relation (wrapped vs inlined program under the same schedule) plus lock-step model conformance",
     "rule": ("Distinct = (program, wrapped block indices and nesting levels, language, data, plan, schedule). Non-trivial = at least one wrapped block contains a task. "
@@ -322,8 +324,9 @@ REGISTRY["C16"] = {
     "pkg": "props/c16",
     "level": "exploration",
     "level_text": ("rapid-drawn Go values (all signed/unsigned integer widths within int64, float32/64 incl. boundary values, -0, subnormals, 1e+-300; strings with "
-                   "unicode/control characters/JSON-looking text; bool; nil; nested map[string]any, []any, typed slices, arrays, byte slices, tagged structs with "
-                   "unexported fields, single-level pointers incl. nil; depth <= 4) through four doors: schema.NewValue / typed Value.ValueFrom with every declared "
+                   "unicode/control characters/JSON-looking text; bool; nil; nested map[string]any, []any, typed slices ([]int, []string, []float64), arrays ([3]int16, [2]bool), byte slices, byte arrays by value and behind a pointer, "
+                   "named types (named ints, strings, bools, floats, named byte slices / byte arrays), typed maps, tagged structs with "
+                   "unexported, skipped and omitempty fields, nested structs with pointers, arrays and interface fields, single-level pointers incl. nil; depth <= 4) through four doors: schema.NewValue / typed Value.ValueFrom with every declared "
                    "item type incl. unknown ones and nil, WithVariables, DoWithResults (declared field types), DoWithObjects, 1..3 data objects declared in the model with JSON bodies, and olive property/header references "
                    "to present, absent and malformed paths; two instances alive at once. Oracle: an independently written canonicaliser (encoding/json semantics "
                    "inside containers) - read-back value and item type must equal canon(v); nothing panics (a panic in an engine goroutine kills the worker and "
